@@ -169,6 +169,10 @@ func (e *Exec) intrinsic(fn *ssa.Function, name string, args []Value) (Value, bo
 		return nil, true
 	case "vMapHavoc":
 		return e.mapHavoc(args), true
+	case "vMapU16U8":
+		return e.mapHavoc([]Value{args[0], args[1], e.c64(8)}), true
+	case "vMapU16Set":
+		return e.mapHavoc([]Value{args[0], args[1], e.c64(0)}), true
 	case "vSymLen":
 		// a 64-bit symbolic int constrained by the harness
 		return e.st.Var(e.constString(args[0]), 64), true
